@@ -55,7 +55,7 @@ def small_record(draw, tname=None):
 @st.composite
 def case_strategy(draw):
     op = draw(st.sampled_from(["extend", "extend", "merge", "timestamps", "timestamps", "grouped", "replace",
-                               "init_from", "rewriter"]))
+                               "init_from", "rewriter", "grouped-replace"]))
     recs = [draw(small_record()) for _ in range(draw(st.integers(1, 4)))]
     return {
         "op": op,
@@ -222,6 +222,41 @@ def check(case, ctx):
         exp_keys = [n for n, _, _ in ref]
         if [k for k in ad if not k.startswith("_")] != exp_keys:
             raise Violation("grouped/asdict", "_asdict keys %r, expected %r" % (ad, exp_keys))
+        originals_unchanged()
+
+    elif op == "grouped-replace":
+        if len(recs) < 2:
+            return
+        g = impl(GroupedRecord, "g/outer", list(recs))
+        if not g.ok:
+            raise Violation("grouped/raised", "%r" % (g,), detail=g.type)
+        g = g.value
+        ref = ref_merge(specs, False)
+        owner = {n: i for n, _, i in ref}
+        kw = {n: v for n, v in case["newvals"].items() if n in owner and n not in GROUPED_ATTRS
+              and dict((x, t) for t, x in fields_of(specs[owner[n]]))[n] == "string"}
+        if shared or kw:
+            ctx.nontriv()
+        res = impl(lambda: g._replace(**kw))
+        if not res.ok:
+            raise Violation("grouped-replace/raised", "_replace(%r) raised %r" % (kw, res), detail=res.type)
+        out = res.value
+        if len(out.records) != len(recs) or out.name != g.name:
+            raise Violation("grouped-replace/shape", "members %d -> %d" % (len(recs), len(out.records)))
+        for i, (spec, old, new) in enumerate(zip(specs, recs, out.records)):
+            if new._desc != old._desc:
+                raise Violation("grouped-replace/descriptor", "member %d descriptor changed" % i)
+            for t, n in fields_of(spec) + [("string", "_source"), ("string", "_classification"), ("datetime", "_generated")]:
+                if n in kw and owner.get(n) == i:
+                    exp = ("none",) if kw[n] is None else observe(base.fieldtype("string")(kw[n]))
+                    what = "named"
+                else:
+                    exp = observe(getattr(old, n))
+                    what = "unnamed"
+                if observe(getattr(new, n)) != exp:
+                    raise Violation("grouped-replace/field", "member %d field %s (%s): %r, expected %r"
+                                    % (i, n, what, getattr(new, n), getattr(old, n) if what == "unnamed" else kw[n]),
+                                    detail=what + ("-metadata" if n.startswith("_") else ""))
         originals_unchanged()
 
     elif op == "replace":
